@@ -885,6 +885,8 @@ func runC07(r *Run) {
 	}
 	r.floor("R07.12", 3)
 	ruleLineSpan(r, "R07.12")
+	r.floor("R07.13", 14)
+	ruleDrainLoopsConnect(r, "R07.13")
 	// R07.10 (= R05.4a): a store routed to the cache on a presence test of fewer than all of its bytes is written past the line end (index out of range in Line.set)
 	r.floor("R07.10", 7)
 	for _, v := range variants(r.W) {
@@ -1081,5 +1083,60 @@ func ruleLineSpan(r *Run, rule string) {
 		}
 		sort.Strings(sites)
 		r.check(len(sites) > 0, rule, v.rel+":line-span", v.run.Pos(), "the data path selects one line from the first byte address of an access (%d alignment calls); some site must align or compare the other byte addresses, because an access may span two lines (sites found: %v)", firstOnly, sites)
+	}
+}
+
+// ruleDrainLoopsConnect (R07.13): a loop that runs until a buffered bus is empty
+// (`for … !bus.IsEmpty() …`) must itself move the bus's buffered entries to its
+// queue (bus.Connect) on every iteration: IsEmpty() also counts the buffer, the
+// consumers only read the queue, and a Connect done once before the loop
+// transfers at most one queue-full. With more buffered results than the queue
+// holds the loop never ends.
+func ruleDrainLoopsConnect(r *Run, rule string) {
+	w := r.W
+	for _, v := range variants(w) {
+		if v.pkg == nil || !v.pipelined() {
+			continue
+		}
+		info := v.info
+		n := 0
+		ast.Inspect(v.run.Body, func(m ast.Node) bool {
+			fs, ok := m.(*ast.ForStmt)
+			if !ok || fs.Cond == nil {
+				return true
+			}
+			// buses whose non-emptiness keeps the loop running
+			var buses []*fieldRole
+			ast.Inspect(fs.Cond, func(k ast.Node) bool {
+				call, ok := k.(*ast.CallExpr)
+				if !ok {
+					return true
+				}
+				sel, ok := call.Fun.(*ast.SelectorExpr)
+				if !ok || sel.Sel.Name != "IsEmpty" || !isCompType(info.TypeOf(sel.X), "BufferedBus") {
+					return true
+				}
+				if f := v.busFieldOf(sel.X); f != nil {
+					buses = append(buses, f)
+				}
+				return true
+			})
+			for _, b := range buses {
+				n++
+				connects := false
+				ast.Inspect(fs.Body, func(k ast.Node) bool {
+					if call, ok := k.(*ast.CallExpr); ok {
+						if sel, ok := call.Fun.(*ast.SelectorExpr); ok && sel.Sel.Name == "Connect" {
+							if f := v.busFieldOf(sel.X); f != nil && f.obj == b.obj {
+								connects = true
+							}
+						}
+					}
+					return true
+				})
+				r.check(connects, rule, fmt.Sprintf("%s.(CPU).Run:drain(%s)#%d", v.rel, b.name, n), fs.Pos(), "the loop waits for the buffered bus %s to be empty and moves its buffered entries to the queue (Connect) in its body", b.name)
+			}
+			return true
+		})
 	}
 }
